@@ -575,19 +575,7 @@ func init() {
 			if cfg.AdminAPI.Enabled {
 				ports["admin"] = cfg.AdminAPI.Port
 			}
-			listening := func(port int) bool {
-				cn, err := net.DialTimeout("tcp", fmt.Sprintf("127.0.0.1:%d", port), 200*time.Millisecond)
-				if err != nil {
-					return false
-				}
-				// a port held by the harness also accepts: the binary's own listener answers HTTP
-				cn.SetDeadline(time.Now().Add(500 * time.Millisecond))
-				fmt.Fprintf(cn, "GET /v1/health HTTP/1.0\r\n\r\n")
-				buf := make([]byte, 16)
-				n, _ := cn.Read(buf)
-				cn.Close()
-				return n > 0
-			}
+			listening := func(port int) bool { return vh.PidListens(cmd.Process.Pid, port) }
 			exited := false
 			var exitErr error
 			t0 := time.Now()
